@@ -72,7 +72,9 @@ _m('C04',
    'equals the documented protocol in every abstract state of RunState x ReplicationState x replication-present x '
    '(clock ? end); that START/STOP are paired on all paths, replication start/end are fired once under their state tests, '
    'TIME_CHANGED carries the popped event time, one warm-up per initialize; that wait()/clear() are adjacent (no lost '
-   'wake-up); that the optional worker is only dereferenced when known to exist; that the run thread terminates. One '
+   'wake-up); that the optional worker is only dereferenced when known to exist; that the run thread terminates; that '
+   'END_REPLICATION is announced last (both states already ENDED, no state write after it) and that a start command wakes the '
+   'worker only after all its own notifications and state writes. One '
    'race shape (stop vs. end of replication) and one late refusal in initialize are genuine and listed as known findings. '
    'Outcomes of arbitrary interleavings are not decided.',
    'No lock discipline exists in the code to check against, so only two race shapes are decided; listener exceptions are '
@@ -86,7 +88,8 @@ _m('C05',
    'head re-reads the state); that the handler catches every Exception; that with exception edges included every popped '
    'event is still executed exactly once in order; that step() fires STOP and returns to STOPPED on every path and that '
    'its handler cannot itself raise; that the strategy the handler consults is read when the failure is handled (not a copy '
-   'taken before the loop); that the wrapper and the handler agree on the exception class. Covers every failing handler '
+   'taken before the loop) and that no path from the handler to the next pop_first() skips the test of the run state; that '
+   'the wrapper and the handler agree on the exception class. Covers every failing handler '
    'and every strategy at once.',
    'SimEvent.execute is the only place handlers are called (checked); effects are classified syntactically (field '
    'writes, container mutations, state-changing self calls, exit calls).',
@@ -109,7 +112,8 @@ _m('C08',
    'notification cannot skip, duplicate or reorder deliveries), that duplicates are never stored, removals are harmless '
    'when absent, emptied lists are dropped, the four unsubscribe modes do what is documented, timed and untimed paths '
    'agree, refused calls change nothing, and that Event/TimedEvent/EventType validate payload metadata and timestamps '
-   'with the documented nesting, and that no listener container lives in a class body (shared by all producers). Holds '
+   'with the documented nesting, that no listener container lives in a class body (shared by all producers) and that '
+   'event types key the listener map by identity (no __eq__/__hash__ merging distinct types). Holds '
    'for every history because each operation preserves the list discipline.',
    'Trusts list/dict ordering contracts; listener objects\' own notify() behaviour is outside the analysed program.',
    'DESIGN.md §3 C08')
@@ -120,7 +124,8 @@ _m('C11',
    'constructor path, that notify forwards data unchanged / resets on warm-up / closes at the clock on replication end, '
    'that statistics are registered in and retrievable from the model, that the warm-up reset outranks same-time model '
    'events, that each of the 68 published rows carries the getter its event name denotes with the right timestamp and '
-   'siblings publish the same sequence, and that the replication only ends with the clock at the end. Equality with an '
+   'siblings publish the same sequence, that exactly one warm-up is scheduled per initialize at the absolute warm-up time '
+   'after the clock reset, and that the replication only ends with the clock at the end. Equality with an '
    'ordinary statistic fed the filtered observations (values) is not decided.',
    'Relies on C01 (priority order), C08 (delivery), C09/C10 (getters); name-derived reference mapping for event '
    'types.',
@@ -132,7 +137,8 @@ _m('C07',
    'sets, process-global random functions, OS entropy, wall-clock values flowing into state; dict iteration only over '
    'str-keyed or order-insensitive loops), that listeners are stored in lists and notified in subscription order, that '
    'event ids are used only ordinally so counter values inherited from earlier work cannot matter, and that _run keeps '
-   'no loop-carried local state so a pause loses nothing. It excludes the known sources of variation over the whole '
+   'no loop-carried local state so a pause loses nothing, and that the command thread stops notifying before it wakes the '
+   'run thread (no dependence on thread timing). It excludes the known sources of variation over the whole '
    'package; it does not prove bit-identity across processes as such.',
    'One allow-listed wall-clock use (explicitly unseeded MersenneTwister) and four order-insensitive dict loops, each '
    'with a reason in the checker; user models/listeners are outside the analysed program.',
@@ -188,7 +194,8 @@ _m('C09',
    'first observation min and max are the observation whatever the sentinel) and the mean moves by one convex step (which '
    'justifies m2 >= 0); that Counter is sum and count of its increments. Numerical accuracy of the moment recurrences is '
    'not decided.',
-   'Axiom m4 >= 0 (numerical fact of the recurrence; m2 >= 0 is discharged by the convex-update rule); real-number semantics without overflow/rounding; '
+   'Axiom m4 >= 0 (numerical fact of the recurrence; m2 >= 0 is discharged by the convex-update rule); real-number semantics except that '
+   'open interval ends do not survive floating-point absorption (c + tiny rounds to c); no overflow; '
    'stdlib math domains trusted.',
    'DESIGN.md §3 C09')
 
@@ -225,7 +232,9 @@ _m('C15',
    'below, 1 above) for all 17 bounded supports, that the inverse functions guard their domains, and -- by exact '
    'rational-function algebra over erf/erf_inv/exp/log atoms with constructor-defined fields substituted -- that '
    'cumulative_probability and inverse_cumulative_probability of Normal, truncated Normal and LogNormal are mutually '
-   'inverse real functions on every computed return path. It does NOT decide the rest of the statistical core (samples '
+   'inverse real functions on every computed return path and that the density is the exact derivative of the cumulative '
+   'function (symbolic differentiation); and, as a necessary condition of "samples follow the density", that every sampler '
+   'stays inside the declared support (shared with C14). It does NOT decide the rest of the statistical core (samples '
    'follow the density, normalisation, numerical accuracy of the inverse): statements about numerical values beyond any '
    'sound static argument in reach.',
    'Supports transcribed from the docstrings into the checker; finite arguments; real-number semantics.',
